@@ -114,6 +114,215 @@ theorem renameSingle_spec {c : Cfg} (hc : COk2 c) {fl : Flavour} {s : St C} (hi 
           · simp [h4]
           · simp [h3, h4]
 
+/-- re-filing any object (live or tombstoned) that is filed under its own path key, to a destination that holds no
+    other live object, keeps the table invariant -/
+theorem inv_refile {c : Cfg} (hc : COk2 c) {fl : Flavour} {s : St C} (hi : Inv c fl s)
+    {h : Nat} {o : Obj C} (hho : s.heap[h]? = some o) (hfo : dget s.dict (norm c o.path) = some h)
+    {p : Str} (hp : Clean c fl p)
+    (hfree : ∀ (h' : Nat) (o' : Obj C), pv s (norm c p) = some (h', o') → h' = h)
+    {sR : St C} (hheap : sR.heap = s.heap.set h (refiled fl o p)) (hnext : sR.nextId = s.nextId)
+    (hnd : (sR.dict.map (·.1)).Nodup)
+    (hd : ∀ q, dget sR.dict q =
+        if q = norm c p ∨ q = (refiled fl o p).oid then some h
+        else if q = norm c o.path ∨ q = o.oid then none else dget s.dict q) :
+    Inv c fl sR := by
+  have hlt : h < s.heap.length := by
+    rcases List.getElem?_eq_some_iff.1 hho with ⟨hl, _⟩; exact hl
+  have hget : ∀ (j : Nat), sR.heap[j]? = if h = j then some (refiled fl o p) else s.heap[j]? := by
+    intro j; rw [hheap, List.getElem?_set]; simp [hlt]
+  have hclo := hi.clean h o hho
+  have hco := clean_C hc hclo
+  have hcp := clean_C hc hp
+  have hsk := comps_foldL_ok hc hco.1
+  have hdk := comps_foldL_ok hc hcp.1
+  have hks : norm c o.path = canon c.sep (foldL c (Path.C c o.path)) := norm_clean hc hclo
+  have hnk : norm c p = canon c.sep (foldL c (Path.C c p)) := norm_clean hc hp
+  have hksh : (norm c o.path).head? = some '/' := norm_head hc hclo
+  have hnkh : (norm c p).head? = some '/' := norm_head hc hp
+  -- the oid keys: equal to the path keys (path style) or not path-like (id style)
+  have hoid : (fl.oip = true ∧ o.oid = norm c o.path ∧ (refiled fl o p).oid = norm c p) ∨
+      (fl.oip = false ∧ o.oid.head? ≠ some '/' ∧ (refiled fl o p).oid = o.oid) := by
+    cases ho : fl.oip with
+    | true =>
+      left
+      refine ⟨rfl, ?_, ?_⟩
+      · rw [hi.pathOid ho h o hho, norm_eq_self_of_oip hc hclo ho]
+      · simp only [refiled, ho, if_true]; exact (norm_eq_self_of_oip hc hp ho).symm
+    | false =>
+      right
+      exact ⟨rfl, hi.idHead ho h o hho, by simp [refiled, ho]⟩
+  -- lookups of path-like keys
+  have hdpath : ∀ (q : Str), q.head? = some '/' →
+      dget sR.dict q = if q = norm c p then some h else if q = norm c o.path then none else dget s.dict q := by
+    intro q hq
+    rw [hd q]
+    rcases hoid with ⟨_, h1, h2⟩ | ⟨_, h1, h2⟩
+    · rw [h1, h2]; simp
+    · have hq1 : q ≠ o.oid := by intro e; rw [e] at hq; exact h1 hq
+      rw [h2]; simp [hq1]
+  -- a live object other than h is filed neither under the old nor under the new key
+  have hother : ∀ (j : Nat) (ob : Obj C), s.heap[j]? = some ob → ob.live = true → j ≠ h →
+      norm c ob.path ≠ norm c p ∧ norm c ob.path ≠ norm c o.path := by
+    intro j ob hj hl hne
+    have hf := hi.filed j ob hj hl
+    constructor
+    · intro e
+      rw [e] at hf
+      exact hne (hfree j ob (pv_some.2 ⟨hf, hj, hl⟩))
+    · intro e
+      rw [e, hfo] at hf
+      exact hne (Option.some.inj hf).symm
+  -- a path-like key that points at cell h is the old key
+  have hown : ∀ (q : Str), q.head? = some '/' → dget s.dict q = some h → q = norm c o.path := by
+    intro q hq hdq
+    exact (hi.pathKey q h o hq hdq hho).symm
+  have hvals : ∀ (q : Str) (j : Nat), dget sR.dict q = some j → j = h ∨ dget s.dict q = some j := by
+    intro q j hdq
+    rw [hd q] at hdq
+    split at hdq
+    · left; exact (Option.some.inj hdq).symm
+    · split at hdq
+      · cases hdq
+      · right; exact hdq
+  have hcell : fl.oip = false → ∀ (j : Nat) (ob : Obj C), sR.heap[j]? = some ob →
+      ∃ ob0, s.heap[j]? = some ob0 ∧ ob0.oid = ob.oid := by
+    intro ho j ob hg
+    rw [hget j] at hg
+    split at hg
+    · rename_i e; subst e; cases hg; exact ⟨o, hho, by simp [refiled, ho]⟩
+    · exact ⟨ob, hg, rfl⟩
+  refine ⟨hnd, ?_, ?_, ?_, ?_, ?_, ?_, ?_, ?_, ?_, ?_, ?_, ?_⟩
+  · intro q j hdq
+    rw [hheap, List.length_set]
+    rcases hvals q j hdq with e | e
+    · rw [e]; exact hlt
+    · exact hi.valsLt q j e
+  · intro j ob hg
+    rw [hget j] at hg
+    split at hg
+    · cases hg; exact hp
+    · exact hi.clean j ob hg
+  · intro q j ob hq hdq hg
+    rw [hdpath q hq] at hdq
+    rw [hget j] at hg
+    split at hdq
+    · rename_i e
+      have : j = h := (Option.some.inj hdq).symm
+      subst this
+      simp only [if_true] at hg
+      cases hg
+      exact e.symm
+    · split at hdq
+      · cases hdq
+      · rename_i hq1 hq2
+        have hjh : h ≠ j := by intro e; subst e; exact hq2 (hown q hq hdq)
+        simp only [hjh, if_false] at hg
+        exact hi.pathKey q j ob hq hdq hg
+  · intro j ob hg hl
+    rw [hget j] at hg
+    split at hg
+    · rename_i e; subst e; cases hg
+      show dget sR.dict (norm c p) = some h
+      rw [hdpath _ hnkh]; simp
+    · rename_i hjh
+      have hne : j ≠ h := fun e => hjh e.symm
+      obtain ⟨h1, h2⟩ := hother j ob hg hl hne
+      rw [hdpath _ (norm_head hc (hi.clean j ob hg)), if_neg h1, if_neg h2]
+      exact hi.filed j ob hg hl
+  · intro j ob hg hl
+    rw [hget j] at hg
+    split at hg
+    · rename_i e; subst e; cases hg
+      rw [hd]; simp
+    · rename_i hjh
+      have hne : j ≠ h := fun e => hjh e.symm
+      obtain ⟨h1, h2⟩ := hother j ob hg hl hne
+      have hold := hi.oidFiled j ob hg hl
+      have hne3 : ob.oid ≠ o.oid := by
+        intro e
+        rcases hoid with ⟨ho, e1, _⟩ | ⟨ho, _, _⟩
+        · rw [hi.pathOid ho j ob hg, ← norm_eq_self_of_oip hc (hi.clean j ob hg) ho, e1] at e
+          exact h2 e
+        · exact hne (hi.oidUnique ho j h ob o hg hho e)
+      rw [hd]
+      rcases hoid with ⟨ho, e1, e2⟩ | ⟨ho, e1, e2⟩
+      · have hob : ob.oid = norm c ob.path := by
+          rw [hi.pathOid ho j ob hg, norm_eq_self_of_oip hc (hi.clean j ob hg) ho]
+        rw [e2, ← e1]
+        have h1' : ob.oid ≠ norm c p := by rw [hob]; exact h1
+        simp [h1', hne3, hold]
+      · have hobh := hi.idHead ho j ob hg
+        have h1' : ob.oid ≠ norm c p := by intro e; rw [e] at hobh; exact hobh hnkh
+        have h2' : ob.oid ≠ norm c o.path := by intro e; rw [e] at hobh; exact hobh hksh
+        rw [e2]
+        simp [h1', h2', hne3, hold]
+  · intro ho j ob hg
+    rw [hget j] at hg
+    split at hg
+    · cases hg; simp [refiled, ho]
+    · exact hi.pathOid ho j ob hg
+  · intro ho j ob hg
+    rw [hget j] at hg
+    split at hg
+    · cases hg; simp only [refiled, ho, Bool.false_eq_true, if_false]; exact hi.idHead ho h o hho
+    · exact hi.idHead ho j ob hg
+  · intro ho q j hdq hq
+    rw [hnext]
+    rw [hd q] at hdq
+    split at hdq
+    · rename_i hor
+      rcases hor with e | e
+      · rw [e] at hq; exact absurd hnkh hq
+      · rcases hoid with ⟨ho', _, _⟩ | ⟨_, _, e2⟩
+        · rw [ho] at ho'; cases ho'
+        · rw [e, e2]; exact hi.idAll ho h o hho
+    · split at hdq
+      · cases hdq
+      · exact hi.idKeys ho q j hdq hq
+  · intro ho q j hdq
+    rw [hd q] at hdq
+    split at hdq
+    · rename_i hor
+      rcases hoid with ⟨_, _, e2⟩ | ⟨ho', _, _⟩
+      · rcases hor with e | e
+        · rw [e]; exact hnkh
+        · rw [e, e2]; exact hnkh
+      · rw [ho] at ho'; cases ho'
+    · split at hdq
+      · cases hdq
+      · exact hi.pathKeysHead ho q j hdq
+  · intro ho q j ob hq hdq hg
+    rcases hoid with ⟨ho', _, _⟩ | ⟨_, e1, e2⟩
+    · rw [ho] at ho'; cases ho'
+    · rw [hd q] at hdq
+      rw [hget j] at hg
+      split at hdq
+      · rename_i hor
+        have : j = h := (Option.some.inj hdq).symm
+        subst this
+        simp only [if_true] at hg
+        cases hg
+        rcases hor with e | e
+        · rw [e] at hq; exact absurd hnkh hq
+        · exact e.symm
+      · rename_i hnor
+        split at hdq
+        · cases hdq
+        · rename_i hnor2
+          have hjh : h ≠ j := by
+            intro e; subst e
+            have := hi.idKeyOid ho q h o hq hdq hho
+            exact hnor2 (Or.inr this.symm)
+          simp only [hjh, if_false] at hg
+          exact hi.idKeyOid ho q j ob hq hdq hg
+  · intro ho j ob hg
+    obtain ⟨ob0, h0, e0⟩ := hcell ho j ob hg
+    rw [← e0, hnext]; exact hi.idAll ho j ob0 h0
+  · intro ho j j' ob ob' hg hg' he
+    obtain ⟨ob0, h0, e0⟩ := hcell ho j ob hg
+    obtain ⟨ob0', h0', e0'⟩ := hcell ho j' ob' hg'
+    exact hi.oidUnique ho j j' ob0 ob0' h0 h0' (by rw [e0, e0', he])
+
 /-- re-filing a live object under a free destination keeps the invariant and moves exactly one tree entry -/
 theorem sim_refile {c : Cfg} (hc : COk2 c) {fl : Flavour} {s : St C} {t : Tree.T C} (hi : Inv c fl s) (hr : Rel c s t)
     {h : Nat} {o : Obj C} (hho : s.heap[h]? = some o) (hlive : o.live = true)
@@ -187,7 +396,14 @@ theorem sim_refile {c : Cfg} (hc : COk2 c) {fl : Flavour} {s : St C} {t : Tree.T
       · cases hdq
       · right; exact hdq
   have hlive' : (refiled fl o p).live = true := hlive
-  refine ⟨⟨hnd, ?_, ?_, ?_, ?_, ?_, ?_, ?_, ?_, ?_, ?_⟩, ⟨?_, ?_, ?_⟩⟩
+  have hcell : fl.oip = false → ∀ (j : Nat) (ob : Obj C), sR.heap[j]? = some ob →
+      ∃ ob0, s.heap[j]? = some ob0 ∧ ob0.oid = ob.oid := by
+    intro ho j ob hg
+    rw [hget j] at hg
+    split at hg
+    · rename_i e; subst e; cases hg; exact ⟨o, hho, by simp [refiled, ho]⟩
+    · exact ⟨ob, hg, rfl⟩
+  refine ⟨⟨hnd, ?_, ?_, ?_, ?_, ?_, ?_, ?_, ?_, ?_, ?_, ?_, ?_⟩, ⟨?_, ?_, ?_⟩⟩
   · intro q j hdq
     rw [hheap, List.length_set]
     rcases hvals q j hdq with e | e
@@ -307,6 +523,13 @@ theorem sim_refile {c : Cfg} (hc : COk2 c) {fl : Flavour} {s : St C} {t : Tree.T
             exact hnor2 (Or.inr this.symm)
           simp only [hjh, if_false] at hg
           exact hi.idKeyOid ho q j ob hq hdq hg
+  · intro ho j ob hg
+    obtain ⟨ob0, h0, e0⟩ := hcell ho j ob hg
+    rw [← e0, hnext]; exact hi.idAll ho j ob0 h0
+  · intro ho j j' ob ob' hg hg' he
+    obtain ⟨ob0, h0, e0⟩ := hcell ho j ob hg
+    obtain ⟨ob0', h0', e0'⟩ := hcell ho j' ob' hg'
+    exact hi.oidUnique ho j j' ob0 ob0' h0 h0' (by rw [e0, e0', he])
   · intro k hk
     rw [Tree.get_set, Tree.get_erase]
     have hkh : (canon c.sep k).head? = some '/' := by rw [head_canon, hc.sep]
@@ -565,12 +788,10 @@ theorem sim_rename_file {c : Cfg} (hc : COk2 c) {fl : Flavour} (hcfg : HashCfg C
             exact rename_tail_file hc hcfg hi hr hp hpn hg hho hl hk hoeq
               (fun h' o' e => by rw [hpd] at e; cases e; exact hch)
           · simp only [hch, if_false]
-            have : (co.kind != (nodeOf c o).kind || co.kind == Kind.file ||
-                !(Tree.children t (Tree.fold (tcfg c fl) (Path.C c p))).isEmpty) = true := by
-              simp only [nodeOf, hk]
+            have : Tree.renameBlocked t (Tree.fold (tcfg c fl) (Path.C c p)) (nodeOf c o) (some (nodeOf c co)) = true := by
+              simp only [Tree.renameBlocked, nodeOf, hk]
               cases co.kind <;> simp
-            simp only [nodeOf] at this ⊢
-            simp only [this, if_true]
+            rw [if_pos this]
             exact ⟨renameOk_err _ _ _, hi, hr, .err⟩
         | none =>
           simp only [hho, Option.getD_some, Option.isSome_none, Bool.false_eq_true, if_false, tfold_eq]
